@@ -234,9 +234,46 @@ def hermitian_case(rng):
                 nontrivial=True, op="eigh", triggers=[])
 
 
+def solve_case(rng):
+    """solve(A, b) with pending signs on b (and A), A not block diagonal in its charge labels"""
+    import symmray as sr
+
+    sym = rng.choice(gen.SYMS)
+    d = rng.randint(1, 2)
+    i1 = sr.BlockIndex({c: d for c in gen.rand_index(rng, sym).chargemap}, dual=rng.random() < 0.5)
+    i2 = sr.BlockIndex({c: d for c in gen.rand_index(rng, sym).chargemap}, dual=rng.random() < 0.5)
+    a = gen.rand_array(rng, sym, indices=[i1, i2], fermi=True, dtype="float64", keep=1.0, parity=0,
+                       pending=rng.random() < 0.5)
+    for s_, b in list(a.blocks.items()):
+        a.blocks[s_] = np.asarray(b) + 8 * np.eye(d)
+    b = gen.rand_array(rng, sym, indices=[i1], fermi=True, dtype="float64", keep=1.0, pending=True,
+                       label=rng.randint(1, 9))
+    env = {"a": a, "b": b}
+    steps = [{"out": ["x"], "op": "solve", "in": ["a", "b"], "params": {}}]
+    res, env2 = impl.run_prog(env, steps)
+    orc = None
+    if a.parity:
+        orc = None  # odd matrices: recorded finding of C01/C11, not judged here
+    elif "ok" not in res[0]:
+        if not str(res[0].get("msg", "")).startswith("LinAlgError"):
+            orc = f"solve raised {res[0].get('msg')}"
+    else:
+        try:
+            xe = sr.linalg.solve(a.phase_sync(), b.phase_sync())
+            if _val(env2["x"].phase_sync()) != _val(xe.phase_sync()) and not _close(env2["x"], xe):
+                orc = "solve on lazily signed operands differs from solve on their synchronised copies"
+        except Exception as e:  # noqa
+            orc = f"solve on synchronised copies raised {type(e).__name__}: {e}"
+    case = {"kind": "prog", "env": {k: ser.enc_val(v) for k, v in env.items()}, "steps": steps}
+    return dict(case=case, impl=stream.strip_py(res), oracle=orc,
+                meta=dict(sym=sym, fermi=True, kind="solve-lazy", pending=True),
+                nontrivial=True, op="solve", triggers=[])
+
+
 def gen_cases(seed, chunk, n, tier):
     rng = random.Random(seed * 7919 + chunk * 104729 + 9)
     out = [hermitian_case(rng) for _ in range(max(1, n // 8))]
+    out += [solve_case(rng) for _ in range(max(1, n // 8))]
     for _ in range(n):
         env0, steps, results, meta = progs.rand_program(rng, fermi=True, length=rng.randint(1, 5), pending=True)
         # rebuild python env from the encoded one is avoided: regenerate by replaying on decoded arrays
